@@ -58,7 +58,8 @@ class WFQ(Scheduler):
             yield env.process(self.send_packet(packet))
             self.update_vtime()
             class_id = self.flow2class(packet.flow_id)
-            if self.queue_count[class_id] == 0:
+            # queue_count is kept per flow; a class is idle when none of its flows has packets
+            if not any(n for f, n in self.queue_count.items() if self.flow2class(f) == class_id):
                 self.active_set.remove(class_id)
             if len(self.active_set) == 0:
                 self.reset_vtime()
